@@ -5,7 +5,9 @@ from .lang import Rule, Functor
 
 def rename_preds_in_rule(r, m):
   def f(e):
-    if e[0] == 'call' and e[1] in m: return ('call', m[e[1]], e[2])
+    if e[0] == 'call' and e[1] in m:
+      if isinstance(m[e[1]], tuple): return m[e[1]]          # a constant given as functor argument replaces the call
+      return ('call', m[e[1]], e[2])
     if e[0] == 'comb': return ('comb', e[1], e[2], rename_body(e[3], m), e[4])
     return e
   def rename_body(body, m):
@@ -79,7 +81,7 @@ def expand(program, origin=None):
     for cand in pending:
       # applicable once F, the values and everything they are built from are plain predicates
       names = set()
-      for n in {cand.base} | {b for _, b in cand.bindings}: closure(n, names)
+      for n in {cand.base} | {b for _, b in cand.bindings if not isinstance(b, tuple)}: closure(n, names)
       if not (names & pending_new): fn = cand; break
     if fn is None: raise FunctorArgumentError('cyclic functor definitions')
     pending.remove(fn)
